@@ -24,7 +24,11 @@ def specs():
     S3 = ArchSpec(layout=Layout({"traps": traps, "aux": aux}, {"traps"}, {"traps"}, {"traps"},
                                 special_grid={"park": Grid.from_positions([-4.0, -2.0], [0.5, 1.5])}))
     S3.layout.static_traps.update({"left": Grid.from_positions([40.0, 42.0], [0.0, 3.0, 6.0]), "right": Grid.from_positions([50.0, 52.5], [1.0, 2.0, 3.0])})
-    return {"plain": (S1, ["traps", "aux"]), "views": (S2, ["traps", "left", "right", "aux"]), "late": (S3, ["traps", "left", "right", "aux"])}
+    # the same geometry as "views" with the names of two zones exchanged (anything remembered per grid across specs shows up)
+    S4 = ArchSpec(layout=Layout({"traps": aux, "left": right, "right": left, "aux": traps}, {"left"}, {"traps"}, {"traps"},
+                                special_grid={"park": Grid.from_positions([-4.0, -2.0], [0.5, 1.5])}))
+    return {"plain": (S1, ["traps", "aux"]), "views": (S2, ["traps", "left", "right", "aux"]), "late": (S3, ["traps", "left", "right", "aux"]),
+            "views-renamed": (S4, ["traps", "left", "right", "aux"])}
 
 
 ZSHAPE = {"traps": (4, 3), "aux": (3, 4), "left": (2, 3), "right": (2, 3)}
@@ -86,7 +90,8 @@ def gen_kernel(rng, zones, invalid=False, nonmonotone=False, fullrep=False):
         elif r < 0.52:
             v = fresh("u")
             lines.append(f"{v} = " + rng.choice([f"grid.shift({g}, 1.0, 0.5)", f"grid.scale({g}, 2.0, 1.0)", f"grid.repeat({g}, 2, 1, 30.0, 1.0)",
-                                                 f"grid.shift({g}, 0.0, 0.0)"]))
+                                                 f"grid.shift({g}, 0.0, 0.0)", f"grid.shift({g}, 0.0, 1.5)", f"grid.shift({g}, 2.5, 0.0)",
+                                                 f"grid.scale({g}, 1.0, 2.0)", f"grid.repeat({g}, 1, 2, 1.0, 30.0)"]))
             grids.append(v)
         elif r < 0.60:
             v = fresh("a")
@@ -288,7 +293,7 @@ def run(ctx):
         S, zones = SP[label]
         invalid = ctx.rng.random() < 0.2
         nonmono = ctx.rng.random() < 0.12
-        fullrep = not nonmono and ctx.rng.random() < 0.2
+        fullrep = not nonmono and label != "views-renamed" and ctx.rng.random() < 0.2
         src = gen_kernel(ctx.rng, zones, invalid=invalid, nonmonotone=nonmono, fullrep=fullrep)
         ctx.hist("stream", ("invalid-name " if invalid else "") + ("non-monotone-indices" if nonmono else "zone-shaped views with a repeated index" if fullrep else "regular"))
         other = SP[ctx.rng.choice([k for k in SP if k != label])][0]
